@@ -257,17 +257,20 @@ def direct_watch_only_history(a):
     what an object that was public-only from the start gives.  Covers BIP-32 (secp256k1, P-256), Khovratovich-Law,
     Cardano Icarus and Byron legacy."""
     import bip_utils as B
-    ci, seed, idxs = a
+    ci, seed, idxs = a[:3]
+    nv = a[3] if len(a) > 3 else None           # optional non-default key net versions (public, private)
     names = ["Bip32Slip10Secp256k1", "Bip32Slip10Nist256p1", "Bip32KholawEd25519", "CardanoIcarusBip32", "CardanoByronLegacyBip32"]
     cls = getattr(B, names[ci])
     sd = seed[:32] if ci == 4 else seed
-    priv = cls.FromSeed(sd)
+    kw = {} if nv is None else {"key_net_ver": B.Bip32KeyNetVersions(bytes(nv[0]), bytes(nv[1]))}
+    priv = cls.FromSeed(sd, **kw)
     want = {}
     for i in idxs:
         c = priv.ChildKey(i)
         want[i] = (c.PublicKey().RawCompressed().ToBytes(), c.ChainCode().ToBytes(), c.Depth().ToInt(),
-                   c.Index().ToInt(), c.ParentFingerPrint().ToBytes())
-    fresh_pub = cls.FromExtendedKey(cls.FromSeed(sd).PublicKey().ToExtended())
+                   c.Index().ToInt(), c.ParentFingerPrint().ToBytes(), c.PublicKey().ToExtended(),
+                   c.KeyNetVersions().Public(), c.KeyNetVersions().Private())
+    fresh_pub = cls.FromExtendedKey(cls.FromSeed(sd, **kw).PublicKey().ToExtended(), **kw)
     priv.ConvertToPublic()
     for route, obj in (("converted after use", priv), ("from xpub", fresh_pub)):
         for i in idxs:
@@ -283,10 +286,14 @@ def direct_watch_only_history(a):
             except Bip32KeyError:
                 pass
             got = (c.PublicKey().RawCompressed().ToBytes(), c.ChainCode().ToBytes(), c.Depth().ToInt(),
-                   c.Index().ToInt(), c.ParentFingerPrint().ToBytes())
-            if got != want[i]:
+                   c.Index().ToInt(), c.ParentFingerPrint().ToBytes(), c.PublicKey().ToExtended(),
+                   c.KeyNetVersions().Public(), c.KeyNetVersions().Private())
+            if got[:5] != want[i][:5]:
                 return "%s %s: watch-only child %d differs from the public half of the private child (pub %s vs %s)" % (
                     names[ci], route, i, got[0].hex()[:20], want[i][0].hex()[:20])
+            if got[5:] != want[i][5:]:
+                return "%s %s: watch-only child %d serialises as %s..., the public half of the private child as %s... " \
+                       "(key net versions %s vs %s)" % (names[ci], route, i, got[5][:8], want[i][5][:8], got[6].hex(), want[i][6].hex())
         try:
             obj.ChildKey(HARD)
             return "%s %s: hardened child of a public-only object accepted" % (names[ci], route)
@@ -442,6 +449,10 @@ def generate(ctx):
             t += 1
         for _ in range(ctx.n(3, 40)):
             ctx.run("watch_only_history", [ci, rand_seed(rng)[:64].ljust(64, b"\x01"), [0, rng.randrange(HARD), HARD - 1]], "rand")
+            # non-default key net versions: test net, BIP-49 (ypub/yprv), BIP-84 (zpub/zprv)
+            nvs = rng.choice([(bytes.fromhex("043587cf"), bytes.fromhex("04358394")), (bytes.fromhex("049d7cb2"), bytes.fromhex("049d7878")),
+                              (bytes.fromhex("04b24746"), bytes.fromhex("04b2430c"))])
+            ctx.run("watch_only_history", [ci, rand_seed(rng)[:64].ljust(64, b"\x01"), [0, 5], list(nvs)], "net-versions")
     # -- refusal clauses, every curve: hardened from public-only, PrivateKey() on public-only, any public derivation
     #    on the ed25519 schemes, index out of range
     for curve in range(4):
